@@ -103,6 +103,16 @@ def r2(ctx):
                 rep.check(ok, "flush[ttl!=0]:deadline", what, "delayed flush writes TTL %s (timestamp %s): it does not make the item expire at flush time + delay (needs the delay%s)" % (short(new_ttl, 100), "kept" if ts_kept else "rewritten", ", the current time and the item's timestamp" if ts_kept else ""), loc_s(e.span))
                 rep.sample({"flush new ttl": short(new_ttl, 200)})
                 rep.check(isinstance(newv, Struct) and newv.base == old and set(newv.fields) <= {"header"} and set(newv.get("header").fields if isinstance(newv.get("header"), Struct) else []) <= {"time_to_live", "timestamp"}, "flush[ttl!=0]:only-expiry-rewritten", "only the expiry fields of each item are rewritten", "delayed flush rewrites more than the expiry of the items: %s" % short(newv, 120), loc_s(e.span))
+    # the arithmetic of the deadline, by affine entailment from each path's guards
+    fd = storefacts.flush_deadlines(ctx)
+    if fd is None:
+        rep.bad("flush:deadline:cannot-evaluate", "cannot evaluate the delayed-flush rewrite", fb.loc())
+    else:
+        for r in fd:
+            case = "ttl=0" if r["old_zero"] else ("ttl!=0" if r["old_nonzero"] else "?")
+            arm = "keep" if tform(r["new_ttl"]) == F(r["event"].extra["old"], "header", "time_to_live") else "rewrite"
+            rep.check(r["p1"] is True, "flush:deadline[%s,%s]" % (case, arm), "timestamp' + ttl' <= now + delay follows from the path's guards", "delayed flush, item %s, %s arm: it does not follow that the item is gone delay seconds after the flush (new TTL %s)" % (case, arm, short(r["new_ttl"], 100)), loc_s(r["event"].span))
+            rep.check(r["p2"] is True, "flush:no-postponement[%s,%s]" % (case, arm), "an item's current expiry (possibly set by an earlier flush) is never postponed", "delayed flush, item %s, %s arm: the rewrite can postpone the item's current expiry (new TTL %s): a later flush with a later deadline undoes an earlier flush (flush(100) at t=50, flush(120) at t=60: the item survives t=150)" % (case, arm, short(r["new_ttl"], 100)), loc_s(r["event"].span))
     return rep
 
 
